@@ -12,7 +12,11 @@
 //! ground truth, compared with what the real code produced.
 use std::time::Instant;
 
-use rotonda::payload::RotondaRoute;
+use rotonda::payload::{RotondaRoute, Update};
+use rotonda::roto_runtime::types::{Provenance, RouteContext};
+use rotonda::verif::bmp_sm::{BmpStepper, StepOutcome};
+use rotonda::verif::rib::BgpUpdateProcessor;
+use rotonda_store::prelude::multi::RouteStatus;
 use rotonda::verif::codec::{explode_announcements, explode_withdrawals};
 use routecore::bgp::message::{SessionConfig, UpdateMessage};
 use routecore::bgp::nlri::afisafi::AfiSafiNlri;
@@ -86,6 +90,29 @@ fn enc_pdu(wd: &[P], attrs: &[A], nlri: &[P]) -> Vec<u8> {
 
 // ------------------------------------------------- the real code
 
+fn route_ev(announce: bool, r: &RotondaRoute) -> Result<Ev, &'static str> {
+    let (fam, prefix) = match r {
+        RotondaRoute::Ipv4Unicast(n, _) => ("4u", *n.nlri()),
+        RotondaRoute::Ipv4Multicast(n, _) => ("4m", *n.nlri()),
+        RotondaRoute::Ipv6Unicast(n, _) => ("6u", *n.nlri()),
+        RotondaRoute::Ipv6Multicast(n, _) => ("6m", *n.nlri()),
+    };
+    let len = prefix.len();
+    let addr = match prefix.addr() {
+        std::net::IpAddr::V4(a) => a.octets()[..nbytes(len)].to_vec(),
+        std::net::IpAddr::V6(a) => a.octets()[..nbytes(len)].to_vec(),
+    };
+    let map = r.rotonda_pamap();
+    let as4 = map.0.pdu_parse_info().four_octet_enabled();
+    let raw = map.0.clone().into_vec();
+    // attributes read back from the stored map
+    let attrs = split_attrs(&raw).ok_or("stored-attribute-bytes-unframed")?;
+    // and as routecore's iterator sees them
+    let n_iter = map.0.iter().filter(|x| x.is_ok()).count();
+    if n_iter != attrs.len() { return Err("stored-attribute-iter-mismatch"); }
+    Ok(Ev { announce, fam, pfx: P { len, addr }, attrs, as4 })
+}
+
 /// What rotonda derives from these bytes: `Err` = no routes (parse error at either stage).
 fn real(as4: bool, pdu: &[u8]) -> Result<Vec<Ev>, &'static str> {
     let cfg = if as4 { SessionConfig::modern() } else { SessionConfig::legacy() };
@@ -94,30 +121,92 @@ fn real(as4: bool, pdu: &[u8]) -> Result<Vec<Ev>, &'static str> {
     let unreach = explode_withdrawals(&upd).map_err(|_| "explode_withdrawals")?;
     let mut out = vec![];
     for (announce, routes) in [(true, reach), (false, unreach)] {
-        for r in routes {
-            let (fam, prefix) = match &r {
-                RotondaRoute::Ipv4Unicast(n, _) => ("4u", *n.nlri()),
-                RotondaRoute::Ipv4Multicast(n, _) => ("4m", *n.nlri()),
-                RotondaRoute::Ipv6Unicast(n, _) => ("6u", *n.nlri()),
-                RotondaRoute::Ipv6Multicast(n, _) => ("6m", *n.nlri()),
-            };
-            let len = prefix.len();
-            let addr = match prefix.addr() {
-                std::net::IpAddr::V4(a) => a.octets()[..nbytes(len)].to_vec(),
-                std::net::IpAddr::V6(a) => a.octets()[..nbytes(len)].to_vec(),
-            };
-            let map = r.rotonda_pamap();
-            let as4 = map.0.pdu_parse_info().four_octet_enabled();
-            let raw = map.0.clone().into_vec();
-            // attributes read back from the stored map
-            let attrs = split_attrs(&raw).ok_or("stored-attribute-bytes-unframed")?;
-            // and as routecore's iterator sees them
-            let n_iter = map.0.iter().filter(|x| x.is_ok()).count();
-            if n_iter != attrs.len() { return Err("stored-attribute-iter-mismatch"); }
-            out.push(Ev { announce, fam, pfx: P { len, addr }, attrs, as4 });
-        }
+        for r in routes { out.push(route_ev(announce, &r)?); }
     }
     Ok(out)
+}
+
+/// The payloads an ingress unit hands to its gate -> events (kind from the payload's route status).
+fn update_evs(u: &Update) -> Result<Vec<Ev>, &'static str> {
+    let Update::Bulk(ps) = u else { return Err("not-a-bulk-update") };
+    let mut out = vec![];
+    for p in ps.iter() {
+        let status = match &p.context { RouteContext::Fresh(c) => c.status, RouteContext::Mrt(c) => c.status, RouteContext::Reprocess => return Err("reprocess-context") };
+        let announce = match status { RouteStatus::Active => true, RouteStatus::Withdrawn => false, _ => return Err("unexpected-route-status") };
+        out.push(route_ev(announce, &p.rx_value)?);
+    }
+    Ok(out)
+}
+
+/// BGP session path: `from_octets` as the session does, then the real private
+/// `bgp_tcp_in::router_handler::Processor::process_update`.
+fn real_bgp(proc_: &mut BgpUpdateProcessor, as4: bool, pdu: &[u8]) -> Result<Vec<Ev>, &'static str> {
+    let cfg = if as4 { SessionConfig::modern() } else { SessionConfig::legacy() };
+    let upd = UpdateMessage::from_octets(bytes::Bytes::copy_from_slice(pdu), &cfg).map_err(|_| "from_octets")?;
+    let prov = Provenance::for_bgp(7, "192.0.2.7".parse().unwrap(), inetnum::asn::Asn::from_u32(64500));
+    let u = futures::executor::block_on(proc_.process_update(upd, prov)).map_err(|_| "process_update")?;
+    update_evs(&u)
+}
+
+// ---- BMP framing (RFC 7854), written here; the monitored peer is 192.0.2.7 AS 64500
+fn bmp_msg(typ: u8, body: &[u8]) -> bytes::Bytes {
+    let mut v = vec![3u8];
+    v.extend(((6 + body.len()) as u32).to_be_bytes());
+    v.push(typ);
+    v.extend(body);
+    bytes::Bytes::from(v)
+}
+fn bmp_pph() -> Vec<u8> {
+    let mut v = vec![0u8, 0u8];               // global instance peer, IPv4, pre-policy
+    v.extend([0u8; 8]);                        // distinguisher
+    v.extend([0u8; 12]); v.extend([192, 0, 2, 7]);
+    v.extend(64500u32.to_be_bytes());
+    v.extend([192, 0, 2, 7]);                  // BGP id
+    v.extend([0u8; 8]);                        // timestamp
+    v
+}
+fn bgp_open(asn: u16, as4: bool, gr: bool) -> Vec<u8> {
+    let mut caps: Vec<u8> = vec![];
+    if as4 { caps.extend([65, 4]); caps.extend((asn as u32).to_be_bytes()); }
+    if gr { caps.extend([64, 2, 0, 120]); }
+    let mut opt = vec![];
+    if !caps.is_empty() { opt.push(2); opt.push(caps.len() as u8); opt.extend(caps); }
+    let mut v = vec![0xffu8; 16];
+    v.extend(((29 + opt.len()) as u16).to_be_bytes());
+    v.push(1); v.push(4);
+    v.extend(asn.to_be_bytes()); v.extend(180u16.to_be_bytes()); v.extend([192, 0, 2, 7]);
+    v.push(opt.len() as u8); v.extend(opt);
+    v
+}
+fn bmp_initiation() -> bytes::Bytes { bmp_msg(4, &[0, 2, 0, 2, b'r', b'1', 0, 1, 0, 1, b'd']) }
+fn bmp_peer_up(as4: bool, gr: bool) -> bytes::Bytes {
+    let mut b = bmp_pph();
+    b.extend([0u8; 12]); b.extend([192, 0, 2, 1]);
+    b.extend(179u16.to_be_bytes()); b.extend(40000u16.to_be_bytes());
+    b.extend(bgp_open(64501, as4, gr)); b.extend(bgp_open(64500, as4, gr));
+    bmp_msg(3, &b)
+}
+fn bmp_route_monitoring(pdu: &[u8]) -> bytes::Bytes { let mut b = bmp_pph(); b.extend(pdu); bmp_msg(0, &b) }
+
+/// BMP path: fresh session -> Initiation -> Peer Up (-> End-of-RIB, to reach Updating) -> one
+/// Route Monitoring message carrying the PDU, through the real `BmpState::process_msg`.
+fn real_bmp(as4: bool, gr: bool, updating: bool, pdu: &[u8]) -> Result<Vec<Ev>, &'static str> {
+    let mut st = BmpStepper::new();
+    st.step(bmp_initiation()).map_err(|_| "setup-initiation")?;
+    st.step(bmp_peer_up(as4, gr)).map_err(|_| "setup-peer-up")?;
+    if st.phase() != 1 || st.peers().len() != 1 || st.peers()[0].four_octet != as4 { return Err("setup-not-dumping"); }
+    if updating {
+        st.step(bmp_route_monitoring(&enc_pdu(&[], &[], &[]))).map_err(|_| "setup-eor")?;
+        if st.phase() != 2 { return Err("setup-not-updating"); }
+    }
+    match st.step(bmp_route_monitoring(pdu)) {
+        Err(_) => Err("bmp-message-rejected"),
+        Ok((_, StepOutcome::Routing(u))) => update_evs(&u),
+        Ok((_, StepOutcome::Invalid(_))) => Err("invalid-message"),
+        // Dumping: the UPDATE was taken for the End-of-RIB marker, nothing extracted
+        Ok((2, StepOutcome::Transition)) if !updating => Ok(vec![]),
+        Ok(_) => Err("unexpected-outcome"),
+    }
 }
 
 fn split_attrs(mut b: &[u8]) -> Option<Vec<A>> {
@@ -231,6 +320,17 @@ fn mp_families(pdu: &[u8]) -> Vec<(u16, u8)> {
         }
     }
     out
+}
+
+/// (afi, safi, NLRI length) of the first MP_UNREACH of a well-formed PDU.
+fn mp_unreach_first(pdu: &[u8]) -> Option<(u16, u8, usize)> {
+    let body = &pdu[19..];
+    let wl = u16::from_be_bytes([body[0], body[1]]) as usize;
+    let al = u16::from_be_bytes([body[2 + wl], body[3 + wl]]) as usize;
+    let attrs = split_attrs(&body[4 + wl..4 + wl + al])?;
+    let a = attrs.iter().find(|a| a.code == 15)?;
+    if a.value.len() < 3 { return None; }
+    Some((u16::from_be_bytes([a.value[0], a.value[1]]), a.value[2], a.value.len() - 3))
 }
 
 // ------------------------------------------------------------ generator
@@ -414,6 +514,12 @@ impl Gen {
 
 // ------------------------------------------------------------------ cases
 
+fn sorted_events(es: &[Ev]) -> Vec<Ev> {
+    let mut v = es.to_vec();
+    v.sort_by_key(|e| (e.announce, e.fam, e.pfx.len, e.pfx.addr.clone(), e.as4, show_attrs(e.as4, &e.attrs)));
+    v
+}
+
 fn describe_diff(exp: &[Ev], got: &[Ev]) -> String {
     if exp.len() != got.len() { return format!("expected {} events, got {}", exp.len(), got.len()); }
     for (i, (e, g)) in exp.iter().zip(got).enumerate() {
@@ -425,24 +531,49 @@ fn describe_diff(exp: &[Ev], got: &[Ev]) -> String {
     "equal".into()
 }
 
+/// How the PDU reaches rotonda.
+#[derive(Clone, Copy, PartialEq)]
+enum Path { Direct, Bgp, BmpDumping, BmpUpdating }
+impl Path {
+    fn tag(self) -> &'static str { match self { Path::Direct => "wf", Path::Bgp => "bgp", Path::BmpDumping => "bmpd", Path::BmpUpdating => "bmpu" } }
+    fn parse(s: &str) -> Path { match s { "bgp" => Path::Bgp, "bmpd" => Path::BmpDumping, "bmpu" => Path::BmpUpdating, _ => Path::Direct } }
+}
+
+struct Ctx { bgp: BgpUpdateProcessor }
+
+/// routecore's `is_eor()` would say yes (read from the reference decoding, not from routecore).
+fn looks_like_eor_to_routecore(pdu: &[u8]) -> bool {
+    if pdu.len() == 23 { return true; }
+    match mp_unreach_first(pdu) { Some((afi, safi, nlri_len)) => !(fam_of(afi, safi).is_some() || known_unsupported(afi, safi)) || nlri_len == 0, None => false }
+}
+
 /// Run one well-formed case. `truth` = the generator's ground truth when available.
-fn wf_case(rec: &mut Recorder, as4: bool, pdu: &[u8], truth: Option<&[Ev]>) -> Result<Vec<Ev>, &'static str> {
-    let got = std::panic::catch_unwind(|| real(as4, pdu)).unwrap_or(Err("panic"));
-    let imp = match &got { Ok(es) => show_events(es), Err("panic") => "panic".to_string(), Err(_) => "err".to_string() };
+fn wf_case(rec: &mut Recorder, cx: &mut Ctx, path: Path, as4: bool, pdu: &[u8], truth: Option<&[Ev]>) -> Result<Vec<Ev>, &'static str> {
+    let got = std::panic::catch_unwind(std::panic::AssertUnwindSafe(|| match path {
+        Path::Direct => real(as4, pdu),
+        Path::Bgp => real_bgp(&mut cx.bgp, as4, pdu),
+        Path::BmpDumping => real_bmp(as4, pdu.len() % 2 == 0, false, pdu),
+        Path::BmpUpdating => real_bmp(as4, pdu.len() % 2 == 0, true, pdu),
+    })).unwrap_or(Err("panic"));
+    let imp = match &got { Ok(es) => show_events(es), Err("panic") => "panic".to_string(), Err(s) if s.starts_with("setup") => format!("engine-error {s}"), Err(_) => "err".to_string() };
     let exp = reference(as4, pdu);
     let oracle = match (&exp, truth) {
         (Err(e), _) => format!("fail engine-selfcheck the reference decoder rejects a PDU of the well-formed stream: {e}"),
         (Ok(r), Some(t)) if r.as_slice() != t => format!("fail engine-selfcheck reference decoder and generator ground truth disagree: {}", describe_diff(t, r)),
         (Ok(r), _) => match &got {
-            Ok(es) if es == r => "ok".to_string(),
-            Ok(es) => format!("fail events-mismatch {}", describe_diff(r, es)),
-            Err(stage) if has_dirty_pad(pdu) && *stage != "panic" && !stage.starts_with("stored") =>
+            // the property speaks of *which* events are derived; their order is compared by the
+            // correspondence with the model, not judged here
+            Ok(es) if sorted_events(es) == sorted_events(r) => "ok".to_string(),
+            Ok(es) if es.is_empty() && path == Path::BmpDumping && looks_like_eor_to_routecore(pdu) =>
+                format!("fail bmp-dumping:update-taken-for-end-of-rib {} route event(s) of a well-formed UPDATE lost: is_eor() is true for it and no End-of-RIB was pending", r.len()),
+            Ok(es) => format!("fail events-mismatch {}", describe_diff(&sorted_events(r), &sorted_events(es))),
+            Err(stage) if has_dirty_pad(pdu) && *stage != "panic" && !stage.starts_with("stored") && !stage.starts_with("setup") =>
                 format!("fail padbits:nonzero-trailing-bits-update-rejected {} failed; {} route event(s) of a well-formed UPDATE lost", stage, r.len()),
             Err(stage) => format!("fail update-rejected:{} {} route event(s) of a well-formed UPDATE lost", stage, r.len()),
         },
     };
     let nontrivial = exp.as_ref().map(|r| !r.is_empty()).unwrap_or(false);
-    rec.case(format!("wf {} {}", if as4 { 4 } else { 2 }, hex(pdu)), imp, oracle, nontrivial);
+    rec.case(format!("{} {} {}", path.tag(), if as4 { 4 } else { 2 }, hex(pdu)), imp, oracle, nontrivial);
     got
 }
 
@@ -488,28 +619,42 @@ fn witness() -> (bool, Vec<u8>) {
     (true, enc_pdu(&[], &[a(0x40, 1, &[0]), a(0x40, 2, &[]), a(0x40, 3, &[10, 0, 0, 1])], &[P { len: 7, addr: vec![0x0b] }]))
 }
 
+/// The witness of `C04_bmp_counterexample`: 203.0.113.0/24 announced in an UPDATE that also
+/// carries an empty MP_UNREACH for IPv4 unicast.
+fn witness_bmp_eor() -> (bool, Vec<u8>) {
+    let a = |flags: u8, code: u8, value: &[u8]| A { flags, code, value: value.to_vec() };
+    (true, enc_pdu(&[], &[a(0x40, 1, &[0]), a(0x40, 2, &[]), a(0x40, 3, &[10, 0, 0, 1]), a(0x80, 15, &[0, 1, 1])], &[P { len: 24, addr: vec![203, 0, 113] }]))
+}
+
 fn main() {
     std::panic::set_hook(Box::new(|_| {}));
     let args = parse_args();
     let t0 = Instant::now();
     let mut rec = Recorder::new("wf: structured well-formed UPDATE PDUs (conventional withdrawn/NLRI, MP_REACH/MP_UNREACH for v4/v6 unicast/multicast and AFI/SAFIs unknown to routecore, 2/4-octet AS, prefix lengths 0..32/128, shuffled attributes with arbitrary flags and extended length), fed as bytes to the real UpdateMessage::from_octets + explode_announcements/withdrawals; mal: one mutation of such a PDU (ok/err class only). non-trivial = a wf case whose reference decoding has at least one route event, or a mal case the real decoder rejects; distinct = distinct case lines");
 
+    let mut cx = Ctx { bgp: BgpUpdateProcessor::new() };
+
     if let Some(path) = &args.replay {
         for line in verif_harness::replay_cases(path) {
             let parts: Vec<&str> = line.split_whitespace().collect();
             if parts.len() != 3 { continue; }
             let (as4, pdu) = (parts[1] == "4", unhex(parts[2]));
-            if parts[0] == "mal" { mal_case(&mut rec, as4, &pdu); } else { let _ = wf_case(&mut rec, as4, &pdu, None); }
+            if parts[0] == "mal" { mal_case(&mut rec, as4, &pdu); } else { let _ = wf_case(&mut rec, &mut cx, Path::parse(parts[0]), as4, &pdu, None); }
         }
         rec.finish(&args, t0.elapsed().as_secs_f64());
         return;
     }
 
-    // 0. the witness decides which variant this tree is
+    // 0. the witnesses decide which variant this tree is
     let (as4, w) = witness();
-    let r = wf_case(&mut rec, as4, &w, None);
+    let r = wf_case(&mut rec, &mut cx, Path::Direct, as4, &w, None);
     rec.variant("padbits", if r.is_err() { "as-written" } else { "repaired" });
-    for (as4, pdu) in corpus() { let _ = wf_case(&mut rec, as4, &pdu, None); rec.bump("corpus"); }
+    let (as4, w) = witness_bmp_eor();
+    let r = wf_case(&mut rec, &mut cx, Path::BmpDumping, as4, &w, None);
+    rec.variant("bmpeor", if matches!(&r, Ok(es) if es.is_empty()) { "as-written" } else { "repaired" });
+    for (as4, pdu) in corpus() {
+        for path in [Path::Direct, Path::Bgp, Path::BmpDumping, Path::BmpUpdating] { let _ = wf_case(&mut rec, &mut cx, path, as4, &pdu, None); rec.bump("corpus"); }
+    }
 
     let mut g = Gen { rng: Rng::new(args.seed) };
 
@@ -528,7 +673,8 @@ fn main() {
                         (Some((afi, safi)), false) => { let mut v = afi.to_be_bytes().to_vec(); v.push(safi); let nh = if afi == 1 { 4 } else { 16 }; v.push(nh); v.extend(vec![1u8; nh as usize]); v.push(0); v.extend(enc_pfxs(&[p.clone()])); let mut at = base.clone(); at.push(A { flags: 0x80, code: 14, value: v }); enc_pdu(&[], &at, &[]) }
                         (Some((afi, safi)), true) => { let mut v = afi.to_be_bytes().to_vec(); v.push(safi); v.extend(enc_pfxs(&[p.clone()])); enc_pdu(&[], &[A { flags: 0x80, code: 15, value: v }], &[]) }
                     };
-                    let _ = wf_case(&mut rec, true, &pdu, None);
+                    let _ = wf_case(&mut rec, &mut cx, Path::Direct, true, &pdu, None);
+                    if fill == 2 { let path = [Path::Bgp, Path::BmpDumping, Path::BmpUpdating][(len as usize + withdraw as usize) % 3]; let _ = wf_case(&mut rec, &mut cx, path, true, &pdu, None); }
                     rec.bump("sweep.prefix_lengths");
                 }
             }
@@ -536,12 +682,17 @@ fn main() {
     }
 
     // 2. random structured PDUs + one mutation of every fourth
-    let n = if args.thorough { 400_000 } else { 12_000 };
+    let n = if args.thorough { 200_000 } else { 12_000 };
     for i in 0..n {
         let b = g.build();
         for t in &b.tags { rec.bump(t); }
         rec.bump(if b.as4 { "as4" } else { "as2" });
-        let _ = wf_case(&mut rec, b.as4, &b.pdu, Some(&b.truth));
+        let _ = wf_case(&mut rec, &mut cx, Path::Direct, b.as4, &b.pdu, Some(&b.truth));
+        if i % 4 == 1 {
+            let path = [Path::Bgp, Path::BmpDumping, Path::BmpUpdating][(i / 4 % 3) as usize];
+            rec.bump(&format!("path.{}", path.tag()));
+            let _ = wf_case(&mut rec, &mut cx, path, b.as4, &b.pdu, Some(&b.truth));
+        }
         let _ = b.dirty;
         if i % 4 == 0 && !b.dirty {
             let (m, kind) = g.damage(&b.pdu);
